@@ -308,7 +308,7 @@ theorem genLoop_post (f : Nat → Bool) (max : Nat) :
   | succ fuel ih =>
     intro i acc cur last hif h
     have hif' : i + 1 + fuel = max + 1 := by omega
-    rw [genLoop]
+    simp only [genLoop]
     cases hi : isScalar i with
     | false =>
       simp only [Bool.not_false, if_true]
